@@ -435,7 +435,7 @@ class TebdLog:
         self.pb.PtTebdBackend.apply_process_tensors = self.saved[2]
 
 
-def make_tebd(pre, post, mps=None, start_step=0, start_time=0.0):
+def make_tebd(pre, post, mps=None, start_step=0, start_time=0.0, control="lossy"):
     import oqupy
     from oqupy import operators as op
     sx, sz = 0.5 * op.sigma("x"), 0.5 * op.sigma("z")
@@ -446,6 +446,9 @@ def make_tebd(pre, post, mps=None, start_step=0, start_time=0.0):
     cc = oqupy.ChainControl([2, 2])
     u = np.array([[0.9, 0.1], [0.0, 0.8]])
     sup = op.left_right_super(u, u.conj().T)
+    if control == "dephasing":
+        # complete dephasing: keeps the populations, removes the coherences — idempotent
+        sup = np.diag([1.0, 0.0, 0.0, 1.0]).astype(complex)
     for k in pre:
         cc.add_single_site_control(sup, 0, int(k), post=False)
     for k in post:
@@ -522,6 +525,66 @@ def same_tebd(a, b, tol=1e-9, skip=0):
     return True
 
 
+def run_tebd_restart_exact(pre, post, m, n, protocol):
+    """Restart protocols that must be EXACT also at a step carrying a pre-measurement control:
+      remaining-controls : the restarted object is given only the controls not applied yet
+      idempotent-control : a dephasing control (applying it twice = once), the identical layout
+    An exception in the restart counts as a failure; the exported gammas must have the axes
+    (left bond, physical d^2, process-tensor bond, right bond)."""
+    control = "dephasing" if protocol == "idempotent-control" else "lossy"
+    with TebdLog():
+        full = make_tebd(pre, post, control=control)
+        rf = tebd_results(full, full.compute(n, progress_type="silent"))
+        u = make_tebd(pre, post, control=control)
+        u.compute(m, progress_type="silent")
+        mps = u.get_augmented_mps()
+        shapes = [tuple(int(x) for x in g.shape) for g in mps.gammas]
+        pt_dim = int(tebd_pt().get_bond_dimensions()[m])
+        want = [("*", 4, pt_dim, "*"), ("*", 4, 1, "*")]
+        shapes_ok = all(len(sh) == 4 and sh[1] == w[1] and sh[2] == w[2]
+                        for sh, w in zip(shapes, want))
+        pre_r = tuple(k for k in pre if k > m) if protocol == "remaining-controls" else pre
+        error, rr, equal = None, None, False
+        try:
+            r = make_tebd(pre_r, post, mps=mps, start_step=m, start_time=float(u.time(m)),
+                          control=control)
+            rr = tebd_results(r, r.compute(n, progress_type="silent"))
+            equal = same_tebd(rf, rr, skip=m)
+        except Exception as e:                      # noqa: BLE001
+            error = "%s: %s" % (type(e).__name__, str(e)[:120])
+        return {"equal": equal, "error": error, "gamma_shapes": shapes, "shapes_ok": shapes_ok,
+                "expected_gamma_axes": "(left bond, %d, %d | 1, right bond)" % (4, pt_dim),
+                "norm_full": [repr(x) for x in rf["norm"][m:]],
+                "norm_restart": [repr(x) for x in rr["norm"]] if rr else None}
+
+
+def oracle_restart_exact(res, pre, post, m, n, protocol):
+    rec = run_tebd_restart_exact(pre, post, m, n, protocol)
+    if rec["equal"] and rec["shapes_ok"] and rec["error"] is None:
+        return 0
+    what = "restart-raises" if rec["error"] else \
+        ("exported-gamma-axes" if not rec["shapes_ok"] else "differs")
+    res.fail("restart-exact:PtTebd:%s:%s%s" % (protocol, what,
+                                                ":pre-control-at-restart-step" if m in pre else ""),
+             {"api": "PtTebd", "protocol": protocol, "pre_controls_at_steps": list(pre),
+              "post_controls_at_steps": list(post), "restart_step": m, "end_step": n,
+              "exception_in_restart": rec["error"],
+              "exported_gamma_shapes": [list(x) for x in rec["gamma_shapes"]],
+              "expected_gamma_axes": rec["expected_gamma_axes"],
+              "norm_uninterrupted_from_restart_step": rec["norm_full"],
+              "norm_restarted": rec["norm_restart"],
+              "how": "compute(%d); get_augmented_mps(); new PtTebd(start_step=%d, start_time="
+                     "time(%d)) %s; compute(%d); compare with the uninterrupted compute(%d)"
+                     % (m, m, m, "with only the controls not applied yet" if protocol ==
+                        "remaining-controls" else "with the same (idempotent, dephasing) controls",
+                        n, n)})
+    return 1
+
+
+EXACT_RESTARTS = [((2,), (), 2, 4), ((1, 2), (2,), 2, 4), ((1,), (1,), 1, 3), ((), (), 2, 4),
+                  ((3,), (0,), 3, 4)]
+
+
 def run_tebd_restart(pre, post, m, n):
     with TebdLog():
         full = make_tebd(pre, post)
@@ -529,9 +592,12 @@ def run_tebd_restart(pre, post, m, n):
         u = make_tebd(pre, post)
         u.compute(m, progress_type="silent")
         mps = u.get_augmented_mps()
-        r = make_tebd(pre, post, mps=mps, start_step=m, start_time=float(u.time(m)))
-        rr = tebd_results(r, r.compute(n, progress_type="silent"))
-        return {"chain": list(r._c14_log), "steps": rr["steps"],
+        try:
+            r = make_tebd(pre, post, mps=mps, start_step=m, start_time=float(u.time(m)))
+            rr = tebd_results(r, r.compute(n, progress_type="silent"))
+        except Exception as e:                      # noqa: BLE001
+            return {"error": "%s: %s" % (type(e).__name__, str(e)[:120])}
+        return {"error": None,"chain": list(r._c14_log), "steps": rr["steps"],
                 "final_equal": bool(np.abs(rr["dm0"][-1] - rf["dm0"][-1]).max() <= 1e-9
                                     and np.abs(rr["dm1"][-1] - rf["dm1"][-1]).max() <= 1e-9
                                     and abs(rr["norm"][-1] - rf["norm"][-1]) <= 1e-9),
@@ -785,8 +851,21 @@ def correspondence(res, tier, rng):
         restarts += [(tuple(sorted(rng.sample(range(5), rng.randrange(0, 3)))),
                       tuple(sorted(rng.sample(range(5), rng.randrange(0, 3)))),
                       m, rng.randrange(m, 6)) for m in (1, 2, 3, 4) for _ in range(5)]
+    # the two restart protocols that are exact also with a pre-control at the restart step
+    for pre, post, m, n in EXACT_RESTARTS:
+        for protocol in ("remaining-controls", "idempotent-control"):
+            oracle_restart_exact(res, pre, post, m, n, protocol)
+            res.count("tebdrestart-exact:%s:%s" % (protocol, "pre-control-at-restart-step"
+                                                   if m in pre else "free"))
     for pre, post, m, n in restarts:
         rec = run_tebd_restart(pre, post, m, n)
+        if rec["error"] is not None:
+            res.fail("restart-raises:PtTebd%s" % (":pre-control-at-restart-step" if m in pre
+                                                  else ""),
+                     {"api": "PtTebd", "pre_controls_at_steps": list(pre),
+                      "post_controls_at_steps": list(post), "restart_step": m, "end_step": n,
+                      "exception_in_restart": rec["error"]})
+            continue
         add("tebdrestart %s %s %d %d" % (",".join(map(str, pre)) or "-",
                                          ",".join(map(str, post)) or "-", m, n),
             "%s;%s;%d;%d" % (" ".join(rec["chain"]), " ".join(str(k) for k in rec["steps"]),
@@ -1022,6 +1101,12 @@ def oracle_gibbs(res, n, k):
 
 def oracle_restart(res, pre, post, m, n):
     rec = run_tebd_restart(pre, post, m, n)
+    if rec["error"] is not None:
+        res.fail("restart-raises:PtTebd%s" % (":pre-control-at-restart-step" if m in pre else ""),
+                 {"api": "PtTebd", "pre_controls_at_steps": list(pre),
+                  "post_controls_at_steps": list(post), "restart_step": m, "end_step": n,
+                  "exception_in_restart": rec["error"]})
+        return 1
     if not rec["results_equal"]:
         key = KEY_RESTART if m in pre else \
             "restart:PtTebd pre=%s post=%s m=%d n=%d" % (pre, post, m, n)
@@ -1181,6 +1266,9 @@ def search(res, rng=None):
     # restart
     for (pre, post, m, n) in [((), (), 2, 4), ((1,), (2,), 2, 4), ((2,), (), 2, 4), ((1,), (), 1, 3)]:
         oracle_restart(res, pre, post, m, n)
+    for pre, post, m, n in EXACT_RESTARTS:
+        for protocol in ("remaining-controls", "idempotent-control"):
+            oracle_restart_exact(res, pre, post, m, n, protocol)
 
 
 def replay_case(res, payload):
@@ -1230,6 +1318,10 @@ def replay_case(res, payload):
         return bool(oracle_getters(res, tuple(fi["pre_controls_at_steps"]),
                                    tuple(fi["post_controls_at_steps"]),
                                    [o if o in ("d", "r", "m") else int(o) for o in fi["calls"]]))
+    if key.startswith("restart-exact:"):
+        return bool(oracle_restart_exact(res, tuple(fi["pre_controls_at_steps"]),
+                                         tuple(fi["post_controls_at_steps"]),
+                                         fi["restart_step"], fi["end_step"], fi["protocol"]))
     if key.startswith("restart:"):
         return bool(oracle_restart(res, tuple(fi["pre_controls_at_steps"]),
                                    tuple(fi["post_controls_at_steps"]),
